@@ -143,7 +143,43 @@ def compare(schema, data):
     return ""
 
 
+def subclass_schema():
+    """every kind of type as an instance of a user / library SUBCLASS of the type classes (RegexType, UUID, user-defined subclasses)"""
+    from py_gql.schema import RegexType, UUID, Boolean
+
+    class MyObject(ObjectType):
+        pass
+
+    class MyInterface(InterfaceType):
+        pass
+
+    class MyUnion(UnionType):
+        pass
+
+    class MyEnum(EnumType):
+        pass
+
+    class MyInput(InputObjectType):
+        pass
+
+    class MyScalar(ScalarType):
+        pass
+    email = RegexType("Email", r"[^@]+@[^@]+", description="an email")
+    stamp = MyScalar("Stamp", serialize=str, parse=str, description="a stamp")
+    color = MyEnum("Shade", [EnumValue("DARK", 0, description="dark"), EnumValue("LIGHT", 1, deprecation_reason="too bright")])
+    node = MyInterface("Thing", [Field("id", NonNullType(UUID), description="the id")], description="a thing")
+    a = MyObject("Apple", [Field("id", NonNullType(UUID)), Field("mail", email, args=[Argument("shade", color, default_value=0)]),
+                           Field("old", stamp, deprecation_reason="gone")], interfaces=[node], description="an apple")
+    b = MyObject("Bean", [Field("id", NonNullType(UUID)), Field("ok", Boolean)], interfaces=[node])
+    u = MyUnion("Fruit", [a, b], description="fruit")
+    inp = MyInput("Basket", [InputField("n", NonNullType(Int)), InputField("shade", ListType(color), default_value=[1]), InputField("mail", email, default_value="a@b")])
+    q = MyObject("Query", [Field("thing", node), Field("fruit", ListType(NonNullType(u)), args=[Argument("basket", inp, default_value={"n": 1, "shade": [1], "mail": "a@b"})])])
+    return Schema(q, types=[a, b])
+
+
 def make_schema(src, default, recursion, dep=1):
+    if src == 2:
+        return subclass_schema()
     if src == 1:
         return code_schema()
     return build_schema(S.render(S.base_record(dict(desc=True, dep=dep, default=default, recursion=recursion, present=0x3F))))
@@ -151,14 +187,14 @@ def make_schema(src, default, recursion, dep=1):
 
 def _introspect(src: int, default: int, recursion: int, cfg: int, dep: int = 1) -> bool:
     """
-    pre: 0 <= src <= 1 and 0 <= default < len(S.DEFAULT_KINDS) and 0 <= recursion <= 3 and 0 <= cfg <= 1 and 0 <= dep <= 2
+    pre: 0 <= src <= 2 and 0 <= default < len(S.DEFAULT_KINDS) and 0 <= recursion <= 3 and 0 <= cfg <= 1 and 0 <= dep <= 2
     pre: dep == 1 or default == 0 or thorough()
     pre: shard_of(default)
     post: _
     """
-    SRC, D, R, C = concrete_int(src, 0, 1), concrete_int(default, 0, len(S.DEFAULT_KINDS) - 1), concrete_int(recursion, 0, 3), concrete_int(cfg, 0, 1)
+    SRC, D, R, C = concrete_int(src, 0, 2), concrete_int(default, 0, len(S.DEFAULT_KINDS) - 1), concrete_int(recursion, 0, 3), concrete_int(cfg, 0, 1)
     DEP = concrete_int(dep, 0, 2)
-    if SRC == 1 and (D or R or DEP != 1):
+    if SRC >= 1 and (D or R or DEP != 1):
         return result(True, False)
     with untraced():
         schema = make_schema(SRC, D, R, DEP)
@@ -178,10 +214,10 @@ INCLUDES = (("", None), ("(includeDeprecated: false)", None), ("(includeDeprecat
 
 def _deprecated_filter(src: int, include: int, dep: int, via_type: bool) -> bool:
     """
-    pre: 0 <= src <= 1 and 0 <= include < len(INCLUDES) and 0 <= dep <= 2
+    pre: 0 <= src <= 2 and 0 <= include < len(INCLUDES) and 0 <= dep <= 2
     post: _
     """
-    SRC, INC, DEP = concrete_int(src, 0, 1), concrete_int(include, 0, len(INCLUDES) - 1), concrete_int(dep, 0, 2)
+    SRC, INC, DEP = concrete_int(src, 0, 2), concrete_int(include, 0, len(INCLUDES) - 1), concrete_int(dep, 0, 2)
     VT = True if via_type else False
     with untraced():
         schema = make_schema(SRC, 0, 0, DEP)
@@ -268,7 +304,7 @@ def _format_default_kernel(s: str) -> bool:
 CONDITIONS = [
     Cond(
         name="introspect", fn=_introspect, quick=100, thorough=300, per_path=60, shards_quick=12, shards_thorough=12,
-        bound="generator schemas (13 default kinds x 4 recursion patterns x deprecation pattern none / some / every member of a type, descriptions on) and a code-built schema (enum internal values, defaults of every input kind) x 2 executors: "
+        bound="generator schemas (13 default kinds x 4 recursion patterns x deprecation pattern none / some / every member of a type, descriptions on) and two code-built schemas (enum internal values, defaults of every input kind; every type an instance of a SUBCLASS of the type classes: RegexType, UUID, user subclasses) x 2 executors: "
               "the standard introspection query equals a reference computed from the schema objects; every defaultValue parses back (parse_value + value_from_ast) to the declared default",
         symbolic={"src,default,recursion,cfg": "choice"}, witness={"src": 0, "default": 1, "recursion": 0, "cfg": 0, "dep": 1},
         assumptions=["oracle: introspection content per spec 4.5 computed from public schema attributes (expected_types)"],
